@@ -131,6 +131,8 @@ PROPS["C10"]["theorem_modules"] = PROPS["C10"]["theorem_modules"] + ["DecProofs.
 for _pid in ("C01", "C02"):
     PROPS[_pid]["theorem_modules"] = PROPS[_pid]["theorem_modules"] + ["DecProofs.Properties.C01GenAdd"]
 
+PROPS["C02"]["theorem_modules"] = PROPS["C02"]["theorem_modules"] + ["DecProofs.Properties.C02GenFmaSwap"]
+
 # secondary build configuration of C02 (thorough tier): the tininess-after-rounding cargo feature
 PROPS["C02"]["feature_configs"] = [{"feature": "tiny_after", "judge_tiny_after": True}]
 
